@@ -1,0 +1,37 @@
+"""Verification tracer: ndjson events at linearisation points.
+
+Off unless the environment variable PYHF_VERIF=1 is set when pyhf is imported; with the
+guard off every hook costs one attribute test.  Events go to the file named by
+PYHF_VERIF_TRACE (append, line buffered) and/or to a sink installed with set_sink().
+"""
+
+import json
+import os
+
+ON = os.environ.get("PYHF_VERIF") == "1"
+
+_seq = 0
+_fh = None
+_sink = None
+
+
+def set_sink(sink):
+    """Install (or remove, with None) an in-process consumer of event records."""
+    global _sink
+    _sink = sink
+
+
+def emit(event, **fields):
+    if not ON:
+        return
+    global _seq, _fh
+    _seq += 1
+    rec = {"seq": _seq, "pid": os.getpid(), "ev": event}
+    rec.update(fields)
+    if _sink is not None:
+        _sink(rec)
+    path = os.environ.get("PYHF_VERIF_TRACE")
+    if path:
+        if _fh is None or _fh.name != path:
+            _fh = open(path, "a", buffering=1)
+        _fh.write(json.dumps(rec, default=str) + "\n")
